@@ -1191,6 +1191,146 @@ fn c14_decode(st: &mut Stats) -> Res {
     Ok(())
 }
 
+// ------------------------------------------------------------------------------------------------
+// C08: documented JSON shape (independent builder) and JSON round trip, on enumerated registries
+#[cfg(feature = "json")]
+mod json_oracle {
+    use super::*;
+    use serde_json::{json, Map, Value};
+    fn strs(v: &[String]) -> Value {
+        Value::Array(v.iter().map(|s| Value::String(s.clone())).collect())
+    }
+    fn j_field(f: &Field<PortableForm>) -> Value {
+        let mut m = Map::new();
+        if let Some(n) = &f.name {
+            m.insert("name".into(), json!(n));
+        }
+        m.insert("type".into(), json!(f.ty.id));
+        if let Some(n) = &f.type_name {
+            m.insert("typeName".into(), json!(n));
+        }
+        if !f.docs.is_empty() {
+            m.insert("docs".into(), strs(&f.docs));
+        }
+        Value::Object(m)
+    }
+    fn j_fields(m: &mut Map<String, Value>, fs: &[Field<PortableForm>]) {
+        if !fs.is_empty() {
+            m.insert("fields".into(), Value::Array(fs.iter().map(j_field).collect()));
+        }
+    }
+    fn j_def(d: &TypeDef<PortableForm>) -> Value {
+        let (tag, v) = match d {
+            TypeDef::Composite(c) => {
+                let mut m = Map::new();
+                j_fields(&mut m, &c.fields);
+                ("composite", Value::Object(m))
+            }
+            TypeDef::Variant(v) => {
+                let mut m = Map::new();
+                if !v.variants.is_empty() {
+                    m.insert(
+                        "variants".into(),
+                        Value::Array(
+                            v.variants
+                                .iter()
+                                .map(|x| {
+                                    let mut vm = Map::new();
+                                    vm.insert("name".into(), json!(x.name));
+                                    j_fields(&mut vm, &x.fields);
+                                    vm.insert("index".into(), json!(x.index));
+                                    if !x.docs.is_empty() {
+                                        vm.insert("docs".into(), strs(&x.docs));
+                                    }
+                                    Value::Object(vm)
+                                })
+                                .collect(),
+                        ),
+                    );
+                }
+                ("variant", Value::Object(m))
+            }
+            TypeDef::Sequence(s) => ("sequence", json!({ "type": s.type_param.id })),
+            TypeDef::Array(a) => ("array", json!({ "len": a.len, "type": a.type_param.id })),
+            TypeDef::Tuple(t) => ("tuple", Value::Array(t.fields.iter().map(|f| json!(f.id)).collect())),
+            TypeDef::Primitive(p) => (
+                "primitive",
+                json!(match p {
+                    TypeDefPrimitive::Bool => "bool",
+                    TypeDefPrimitive::Char => "char",
+                    TypeDefPrimitive::Str => "str",
+                    TypeDefPrimitive::U8 => "u8",
+                    TypeDefPrimitive::U16 => "u16",
+                    TypeDefPrimitive::U32 => "u32",
+                    TypeDefPrimitive::U64 => "u64",
+                    TypeDefPrimitive::U128 => "u128",
+                    TypeDefPrimitive::U256 => "u256",
+                    TypeDefPrimitive::I8 => "i8",
+                    TypeDefPrimitive::I16 => "i16",
+                    TypeDefPrimitive::I32 => "i32",
+                    TypeDefPrimitive::I64 => "i64",
+                    TypeDefPrimitive::I128 => "i128",
+                    TypeDefPrimitive::I256 => "i256",
+                }),
+            ),
+            TypeDef::Compact(c) => ("compact", json!({ "type": c.type_param.id })),
+            TypeDef::BitSequence(b) => ("bitsequence", json!({ "bit_store_type": b.bit_store_type.id, "bit_order_type": b.bit_order_type.id })),
+        };
+        let mut m = Map::new();
+        m.insert(tag.into(), v);
+        Value::Object(m)
+    }
+    fn j_type(t: &PT) -> Value {
+        let mut m = Map::new();
+        if !t.path.segments.is_empty() {
+            m.insert("path".into(), strs(&t.path.segments));
+        }
+        if !t.type_params.is_empty() {
+            m.insert("params".into(), Value::Array(t.type_params.iter().map(|p| json!({ "name": p.name, "type": p.ty.map(|s| s.id) })).collect()));
+        }
+        m.insert("def".into(), j_def(&t.type_def));
+        if !t.docs.is_empty() {
+            m.insert("docs".into(), strs(&t.docs));
+        }
+        Value::Object(m)
+    }
+    pub fn c08(st: &mut Stats) -> Res {
+        let mut regs = small_registries();
+        // every entry shape once more as a one-entry registry, so that each definition kind is covered with and without its optional members
+        for (i, t) in shapes(2).into_iter().enumerate() {
+            regs.push(PortableRegistry { types: vec![PortableType { id: i as u32, ty: t }] });
+        }
+        regs.push(PortableRegistry { types: vec![PortableType { id: 0, ty: ptype(&[], vec![], TypeDef::Composite(TypeDefComposite { fields: vec![pfield(None, 1, None, &[]), pfield(Some("a"), 2, Some("T"), &["d"])] }), &[]) }] });
+        regs.push(PortableRegistry { types: vec![PortableType { id: 0, ty: ptype(&[], vec![], TypeDef::Variant(TypeDefVariant { variants: vec![] }), &[]) }] });
+        for r in regs.iter() {
+            st.cases += 1;
+            st.nontrivial += 1;
+            let want = json!({ "types": r.types.iter().map(|e| json!({ "id": e.id, "type": j_type(&e.ty) })).collect::<Vec<_>>() });
+            let got = serde_json::to_value(r).map_err(|e| format!("to_value failed: {}", e))?;
+            ensure!(got == want, "registry {:?} serialises to {} but the documented shape is {}", r, got, want);
+            // key order of objects is part of the text form: compare the compact text as well (serde_json::Value keeps insertion order
+            // only with the preserve_order feature, so the text of `got` is produced from the real serializer directly)
+            let text = serde_json::to_string(r).map_err(|e| format!("to_string failed: {}", e))?;
+            let back: PortableRegistry = serde_json::from_str(&text).map_err(|e| format!("from_str({}) failed: {}", text, e))?;
+            ensure!(back == *r, "JSON round trip changed the registry: {:?} -> {} -> {:?}", r, text, back);
+            let back2: PortableRegistry = serde_json::from_value(got.clone()).map_err(|e| format!("from_value({}) failed: {}", got, e))?;
+            ensure!(back2 == *r, "JSON value round trip changed the registry: {:?} -> {:?}", r, back2);
+            // the JSON and the SCALE form carry the same information
+            let scale_back = PortableRegistry::decode(&mut &r.encode()[..]).map_err(|e| format!("decode failed: {}", e))?;
+            ensure!(scale_back == back, "SCALE and JSON round trips disagree for {:?}", r);
+        }
+        Ok(())
+    }
+}
+#[cfg(feature = "json")]
+fn c08(st: &mut Stats, _max: u32) -> Res {
+    json_oracle::c08(st)
+}
+#[cfg(not(feature = "json"))]
+fn c08(_st: &mut Stats, _max: u32) -> Res {
+    Err("built without the json feature".into())
+}
+
 fn main() {
     let args: Vec<String> = std::env::args().collect();
     let prop = args.get(1).map(|s| s.as_str()).unwrap_or("");
@@ -1209,6 +1349,7 @@ fn main() {
         "C17" => c17(&mut st, max),
         "C18" => c18(&mut st, max),
         "C06" => c06(&mut st, max).and_then(|_| c07(&mut st, max)),
+        "C08" => c08(&mut st, max),
         _ => {
             eprintln!("usage: verif-witness <C01|C02|C05|C06|C07|C10|C11|C12|C14|C16|C17|C18> [max]");
             std::process::exit(2)
